@@ -163,6 +163,11 @@ func (m *Manager) findBestEndpointLocked(ctx context.Context) (*activeEnpoint, e
 			return ae, nil
 		}
 	}
+	if firstEndpoint == nil {
+		// No provider offered any endpoint: electing a nil endpoint would make
+		// every query fail and the next election dereference it.
+		return nil, errors.New("no endpoint available")
+	}
 	// Fallback to first endpoint with short
 	m.debugf("Falling back to first endpoint %s", firstEndpoint)
 	ae := m.newActiveEndpointLocked(firstEndpoint)
